@@ -267,10 +267,13 @@ pub const FILES: &[&str] = &["Foo.kt", "SourceFile", SYNTHETIC, "Bar.java", "ü.
 /// (no space, colon, parentheses, dot, line terminators, quote, arrow)
 const ID_START: &[&str] = &[
     "a", "b", "x", "Z", "Q", "_", "$", "<", "é", "ü", "漢", "𝒳", "L", "I", "V", "a", "b", "x", "@", "{", "\\", "/", "~", "\u{1f600}",
+    // BMP characters above the surrogate range (UTF-8 byte order != UTF-16 code-unit order against supplementary
+    // characters) and Unicode spaces that are legal in dex names (str::trim would strip them)
+    "Ａ", "\u{e000}", "\u{a0}", "\u{3000}",
 ];
 const ID_CONT: &[&str] = &[
     "a", "b", "x", "Z", "0", "1", "9", "_", "$", "<", ">", "-", "[", "]", "é", "漢", "𝒳", ";", "a", "b", "0", "\"", "\\", "/", "@", "{", "}", "!", "?", "*", "+", "=", "~", "^", "%", "&", "|", "'", "`",
-    "\u{a0}x", "\u{2028}y", "\u{1f600}", "\u{7f}",
+    "\u{a0}x", "\u{2028}y", "\u{1f600}", "\u{7f}", "Ａ", "\u{e000}", "\u{ffee}", "\u{a0}", "\u{3000}", "\u{2028}", "\u{feff}", "\u{b}", "\u{c}",
 ];
 
 pub fn ident() -> impl Strategy<Value = String> {
@@ -291,6 +294,8 @@ pub fn long_ident() -> impl Strategy<Value = String> {
         5 => (128usize..420, select(&["a", "b", "x", "Z", "_", "$", "é", "漢", "𝒳"][..])).prop_map(|(n, c)| format!("L{}", c.repeat(n))),
         5 => (exact, select(&["a", "q", "Z"][..])).prop_map(|(n, c)| c.repeat(n)),
         1 => (select(&[16382usize, 16383, 16384, 16385, 16500][..]), select(&["a", "b"][..])).prop_map(|(n, c)| c.repeat(n)),
+        // 16-bit length limits (class-file CONSTANT_Utf8) are a tempting but wrong bound for mapping tokens
+        1 => (select(&[65534usize, 65535, 65536, 65537, 70000][..]), select(&["a", "b"][..])).prop_map(|(n, c)| c.repeat(n)),
     ]
 }
 
@@ -331,6 +336,9 @@ pub struct GenCfg {
     pub overloads: bool,
     /// probability weight for numbers near 2^31 / 2^32-2
     pub big_numbers: bool,
+    /// a method may repeat the previous method's range shifted by a multiple of 2^32 (leaves the representable
+    /// domain of the cache's line fields; only used where line values do not matter, i.e. by-params lookups)
+    pub alias_ranges: bool,
 }
 
 impl Default for GenCfg {
@@ -346,6 +354,7 @@ impl Default for GenCfg {
             long: 1,
             overloads: false,
             big_numbers: true,
+            alias_ranges: false,
         }
     }
 }
@@ -385,9 +394,13 @@ pub fn range(big: bool) -> BoxedStrategy<Option<(u64, u64)>> {
         5 => prop_oneof![Just(Some((0u64, 0u64))), (1u64..30).prop_map(|n| Some((0, n))), (1u64..30).prop_map(|n| Some((n, 0)))],
         10 => (line_number(big), line_number(big)).prop_map(|(a, b)| Some((a, b))),
         5 => (line_number(big), 0u64..300).prop_map(|(a, d)| Some((a, (a + d).min(MAX_REPR)))),
+        // spans at the 8/16-bit boundaries and multiples of 2^16
+        4 => (1u64..40, select(POW_SPANS)).prop_map(|(s, d)| Some((s, s + d))),
     ]
     .boxed()
 }
+
+pub const POW_SPANS: &[u64] = &[255, 256, 257, 65535, 65536, 65537, 131072, 196608];
 
 pub fn olines(big: bool) -> BoxedStrategy<OLines> {
     prop_oneof![
@@ -397,6 +410,7 @@ pub fn olines(big: bool) -> BoxedStrategy<OLines> {
         25 => (1u64..80, 0u64..14).prop_map(|(a, d)| OLines::SE(a, a + d)),
         5 => (2u64..80, 1u64..10).prop_map(|(a, d)| OLines::SE(a, a.saturating_sub(d))),
         5 => (line_number(big), line_number(big)).prop_map(|(a, b)| OLines::SE(a, b)),
+        4 => (1u64..80, select(POW_SPANS)).prop_map(|(a, d)| OLines::SE(a, a + d)),
     ]
     .boxed()
 }
@@ -504,7 +518,15 @@ pub fn block_items(cfg: &GenCfg) -> BoxedStrategy<Vec<Item>> {
                     let prev = out.iter().rev().find_map(|i| if let Item::Method(p) = i { Some(p.clone()) } else { None });
                     if let Some(p) = prev {
                         let (inl, ovl, dup) = if cfg2.overloads { (25, 45, 60) } else { (25, 35, 40) };
-                        if dice < inl {
+                        if cfg2.alias_ranges && dice >= 94 {
+                            // same obfuscated name, range equal modulo 2^32 (NOT an inline group)
+                            m.obf = p.obf.clone();
+                            let k = 1 + (dice2 as u64 % 3);
+                            m.range = p.range.map(|(s, e)| (s + (k << 32), e + (k << 32)));
+                            if p.range.is_none() {
+                                m.range = Some((k << 32, k << 32));
+                            }
+                        } else if dice < inl {
                             // inline group: same obfuscated name and range
                             m.obf = p.obf.clone();
                             m.range = p.range;
@@ -669,7 +691,7 @@ pub fn render_cfg() -> BoxedStrategy<Render> {
 pub fn similar_names(n: usize) -> BoxedStrategy<Vec<String>> {
     // build names from a tiny alphabet so that prefixes, '$'/'.' variants, case variants and non-ASCII
     // neighbours are all present
-    let atom = select(&["a", "b", "A", "$", ".", "é", "ab", "a$", "a.", "Z", "z", "0", "_", "ü", "漢"][..]);
+    let atom = select(&["a", "b", "A", "$", ".", "é", "ab", "a$", "a.", "Z", "z", "0", "_", "ü", "漢", "𝒳", "Ａ", "\u{e000}", "\u{10ffff}", "!", "(", "%"][..]);
     vec(vec(atom, 1..5).prop_map(|v| {
         let mut s: String = v.concat();
         // no leading/trailing dot and no empty names
